@@ -21,6 +21,29 @@ enum E {
 use E::*;
 const VARS: &[&str] = &["x", "y", "z"];
 
+/// the same expression with fewer parentheses: the operands of a comparison and the condition of
+/// a piecewise expression are written without their own parentheses (arithmetic binds tighter
+/// than comparisons, comparisons tighter than `if`/`else`), so that `-`, `>` and `if` share one
+/// group of the deep form
+fn render_sloppy(e: &E) -> String {
+    fn bare(e: &E) -> String {
+        match e {
+            Bin(n, a, b) if *n == "+" || *n == "-" => format!("({}) {} ({})", render_sloppy(a), n, render_sloppy(b)),
+            Cmp(n, a, b) => format!("{} {} {}", bare(a), n, bare(b)),
+            _ => render_sloppy(e),
+        }
+    }
+    match e {
+        Flt(x) => format!("{:?}", x),
+        Int(i) => format!("{}", i),
+        Var(i) => VARS[*i].to_string(),
+        Un(n, a) => format!("{}({})", n, render_sloppy(a)),
+        Bin(n, a, b) => format!("(({}) {} ({}))", render_sloppy(a), n, render_sloppy(b)),
+        Cmp(_, _, _) => format!("({})", bare(e)),
+        Ite(c, f, g) => format!("(({}) if {} else ({}))", render_sloppy(f), bare(c), render_sloppy(g)),
+    }
+}
+
 fn render(e: &E) -> String {
     match e {
         Flt(x) => format!("{:?}", x),
@@ -225,7 +248,9 @@ pub fn gen(r: &mut Rng, _tier: &str, _i: usize, stats: &mut BTreeMap<String, u64
     };
     let order = *r.pick(&[1usize, 1, 1, 2]);
     let idxs: Vec<String> = (0..order).map(|_| r.below(3).to_string()).collect();
-    format!("valdiff\t{}\t{}\t{}", hex(&render(&e)), idxs.join(","), r.next() % 1000000)
+    // half of the cases are handed to the implementation with fewer parentheses (4th field)
+    let sloppy = if r.chance(1, 2) { hex(&render_sloppy(&e)) } else { "-".to_string() };
+    format!("valdiff\t{}\t{}\t{}\t{}", hex(&render(&e)), idxs.join(","), r.next() % 1000000, sloppy)
 }
 
 // the reference tree is rebuilt from the rendered text by a small parser (full parenthesisation)
@@ -332,10 +357,13 @@ pub fn run(f: &[&str]) -> String {
     let text = unhex(f[0]);
     let idxs: Vec<usize> = f[1].split(',').map(|x| x.parse().unwrap()).collect();
     let seed: u64 = f[2].parse().unwrap_or(1);
+    let f_sloppy: String = f.get(3).map(|x| x.to_string()).unwrap_or_else(|| "-".to_string());
     crate::catch(move || {
         let chars: Vec<char> = text.chars().collect();
         let mut pos = 0;
         let reference0 = parse(&chars, &mut pos);
+        // the text the implementation sees (the reference always reads the fully parenthesised one)
+        let text = if f_sloppy != "-" { unhex(&f_sloppy) } else { text };
         let expr = match exmex::parse_val::<i32, f64>(&text) {
             Ok(e) => e,
             Err(_) => return "r=PARSE-ERROR".to_string(),
@@ -360,6 +388,20 @@ pub fn run(f: &[&str]) -> String {
         if d.var_names() != expr.var_names() {
             return format!("r=VARS {:?} vs {:?}", d.var_names(), expr.var_names());
         }
+        // the same through the deep form: DeepEx::parse keeps un-parenthesised chains in one group, so
+        // the value/derivative pairs are reduced in priority order (flat -> deep nests every operator)
+        type DV<'a> = exmex::DeepEx<'a, Val<i32, f64>, exmex::ValOpsFactory<i32, f64>, exmex::ValMatcher>;
+        let text_static: &'static str = Box::leak(text.clone().into_boxed_str());
+        let dd = match DV::parse(text_static) {
+            Ok(e) => match e.partial_iter(idxs.iter().copied()) {
+                Ok(d) => d,
+                Err(_) => return "r=UNEXPECTED-ERROR-DEEP".to_string(),
+            },
+            Err(_) => return "r=PARSE-ERROR-DEEP".to_string(),
+        };
+        if dd.var_names() != expr.var_names() {
+            return format!("r=VARS-DEEP {:?} vs {:?}", dd.var_names(), expr.var_names());
+        }
         let mut rng = Rng::new(seed);
         let mut judged = 0;
         for _ in 0..20 {
@@ -368,19 +410,21 @@ pub fn run(f: &[&str]) -> String {
                 continue;
             }
             let vals: Vec<Val<i32, f64>> = names.iter().map(|n| Val::Float(p[VARS.iter().position(|v| v == n).unwrap()])).collect();
-            let got = match d.eval(&vals) {
-                Ok(v) => v,
-                Err(_) => return "r=EVAL-ERROR".to_string(),
-            };
             let want = eval(&reference, &p);
-            let ok = match (&got, want) {
-                (Val::Bool(b), V::B(w)) => *b == w,
-                (Val::Float(x), V::F(w)) => (x - w).abs() <= 1e-6 * (1.0 + x.abs().max(w.abs())),
-                (Val::Int(i), V::F(w)) => ((*i as f64) - w).abs() <= 1e-9,
-                _ => false,
-            };
-            if !ok {
-                return format!("r=VALUE got {:?} want {:?} at {:?}", got, want, p);
+            for (form, got) in [("flat", d.eval(&vals)), ("deep", dd.eval(&vals))] {
+                let got = match got {
+                    Ok(v) => v,
+                    Err(_) => return format!("r=EVAL-ERROR {}", form),
+                };
+                let ok = match (&got, want) {
+                    (Val::Bool(b), V::B(w)) => *b == w,
+                    (Val::Float(x), V::F(w)) => (x - w).abs() <= 1e-6 * (1.0 + x.abs().max(w.abs())),
+                    (Val::Int(i), V::F(w)) => ((*i as f64) - w).abs() <= 1e-9,
+                    _ => false,
+                };
+                if !ok {
+                    return format!("r=VALUE {} got {:?} want {:?} at {:?}", form, got, want, p);
+                }
             }
             judged += 1;
             if judged >= 3 {
